@@ -401,7 +401,8 @@ func hasVariadicParameter(funType reflect.Type) bool {
 		return false
 	}
 	last := funType.In(numArgs - 1)
-	return last != nil && last.Kind() == reflect.Slice
+	// a trailing slice parameter is variadic only when it is declared with ...
+	return funType.IsVariadic() && last != nil && last.Kind() == reflect.Slice
 }
 
 func convTypeToTarget(source interface{}, target reflect.Type) (interface{}, error) {
